@@ -33,6 +33,8 @@ type schedState struct {
 	dead        bool
 	preemptions int
 	trace       []int
+	bound       int
+	boundSet    bool
 }
 
 func (in *Interp) sched() *schedState {
@@ -54,7 +56,6 @@ func (in *Interp) mainThread() *thread {
 func (fr *frame) doGo(c *ssa.CallCommon) {
 	in := fr.in
 	in.e.site = "go in " + fr.fn.String()
-	in.mainThread()
 	var recv, fv Value
 	args := make([]Value, 0, len(c.Args))
 	if c.IsInvoke() {
@@ -65,6 +66,15 @@ func (fr *frame) doGo(c *ssa.CallCommon) {
 	for _, a := range c.Args {
 		args = append(args, fr.get(a))
 	}
+	in.spawn(func() {
+		top := &frame{in: in, fn: fr.fn, locals: map[ssa.Value]Value{}}
+		top.callValue(c, fv, recv, args)
+	})
+}
+
+// spawn starts an interpreter thread running body.
+func (in *Interp) spawn(body func()) {
+	in.mainThread()
 	t := &thread{id: len(in.threads), resume: make(chan struct{}, 1)}
 	in.threads = append(in.threads, t)
 	ss := in.sched()
@@ -77,13 +87,9 @@ func (fr *frame) doGo(c *ssa.CallCommon) {
 			}
 			t.done = true
 			if r != nil {
-				if gp, ok := r.(*goPanic); ok {
-					// an unrecovered panic in a goroutine crashes the program
-					ss.abort = gp
-				} else {
-					ss.abort = r
-				}
-				// hand control back to main, which re-raises
+				// an unrecovered panic in a goroutine crashes the program; engine
+				// aborts travel the same way: main re-raises
+				ss.abort = r
 				in.cur = in.threads[0]
 				in.threads[0].resume <- struct{}{}
 				return
@@ -93,8 +99,7 @@ func (fr *frame) doGo(c *ssa.CallCommon) {
 		if ss.dead {
 			panic(threadKill{})
 		}
-		top := &frame{in: in, fn: fr.fn, locals: map[ssa.Value]Value{}}
-		top.callValue(c, fv, recv, args)
+		body()
 	}()
 	in.schedPoint("go")
 }
@@ -132,7 +137,7 @@ func (in *Interp) schedPoint(what string) {
 	var pick *thread
 	if len(en) == 1 {
 		pick = en[0]
-	} else if curEnabled && ss.preemptions >= in.env.preemptBound {
+	} else if curEnabled && ss.preemptions >= in.preemptBound() {
 		pick = in.cur
 	} else {
 		// order: current thread first, so decision 0 = "keep running"
@@ -415,4 +420,11 @@ func (fr *frame) doSelect(x *ssa.Select) Value {
 		}
 	}
 	return res
+}
+
+func (in *Interp) preemptBound() int {
+	if in.ss != nil && in.ss.boundSet {
+		return in.ss.bound
+	}
+	return in.env.preemptBound
 }
